@@ -25,7 +25,7 @@ ENCODED = ["pylife.mesh.hotspot:HotSpot.calc", "pylife.mesh.hotspot:HotSpot._Hot
 STUBS = ["numpy.linalg.lstsq(A, b) for a concrete matrix A and a symbolic right-hand side by its contract x = (A^T A)^-1 A^T b in exact "
          "rational arithmetic (full column rank; zero columns get 0); np.zeros without dtype -> object array, np.nditer(external_loop, "
          "order='F') over an object array -> its columns; SeriesGroupBy.mean object fall-back (symbolic run only)",
-         "numpy.linalg.inv of a 3x3 matrix by its contract adj(J)/det(J) (LinAlgError for an exactly singular matrix) in the symbolic run",
+         "numpy.linalg.inv of a 3x3 matrix by its contract adj(J)/det(J) (det(J) != 0 assumed: non-degenerate elements) in the symbolic run",
          "DataFrame.__setitem__(name, float) on a frame with symbolic columns creates an object column (so that it can take symbolic results)"]
 ASSUMPTIONS = ["field values are symbolic (any sign) and pairwise distinct (distinct peaks; ties in the numbering are not specified)",
                "meshes are concrete and enumerated (2-3 elements, shared nodes / disconnected / chains, id gaps, shuffled rows)",
@@ -71,6 +71,12 @@ def bounds(tier):
                          "; node and element ids with gaps and in any order, rows of different elements interleaved; least-squares operator: two tetrahedra "
                          "with concrete positions, ids 1..N in order / permuted / with gaps / with gaps and unordered, one tetrahedron whose apex lies over a "
                          "flat base; the same Gradient3D operator object asked again after the mesh was stretched in place")}
+
+
+def options(tier):
+    # feasibility queries about symbolic Jacobian determinants are nonlinear; a short limit keeps them from dominating
+    # (an undecided one only means that the assumption is taken as feasible; the claims are decided syntactically)
+    return {"timeout_ms": 10000}
 
 
 def cases(tier):
@@ -179,6 +185,9 @@ class _Linalg:
     singular matrix raises LinAlgError as numpy does"""
     LinAlgError = np.linalg.LinAlgError
 
+    def __init__(self, ctx):
+        self.ctx = ctx
+
     def __getattr__(self, name):
         return getattr(np.linalg, name)
 
@@ -195,8 +204,9 @@ class _Linalg:
         (a11, a12, a13), (a21, a22, a23), (a31, a32, a33) = [list(r) for r in a]
         c11, c12, c13 = a22 * a33 - a23 * a32, a23 * a31 - a21 * a33, a21 * a32 - a22 * a31
         det = a11 * c11 + a12 * c12 + a13 * c13
-        if bool(det == 0):
-            raise np.linalg.LinAlgError("Singular matrix")
+        # non-degenerate elements only (harness assumption): the singular case is excluded instead of forked on - deciding
+        # det == 0 for a symbolic Jacobian cost sixteen solver time-outs per hexahedron
+        self.ctx.define(det != 0)
         adj = [[c11, a13 * a32 - a12 * a33, a12 * a23 - a13 * a22],
                [c12, a11 * a33 - a13 * a31, a13 * a21 - a11 * a23],
                [c13, a12 * a31 - a11 * a32, a11 * a22 - a12 * a21]]
@@ -246,9 +256,9 @@ def _lstsq_exact(A, b):
 
 
 class _GradFacade(npfacade.NPFacade):
-    def __init__(self):
+    def __init__(self, ctx):
         super().__init__()
-        self.linalg = _Linalg()
+        self.linalg = _Linalg(ctx)
         self.linalg.lstsq = lambda A, b, rcond=None: _lstsq_exact(A, b)
 
     def zeros(self, shape, dtype=None, order="C"):
@@ -294,7 +304,7 @@ def _run_gradient3d(ctx, case):
     import pylife.mesh.gradient as GR
     layout = GRAD_MESHES[case["mesh"]]
     if ctx.sym:
-        ctx.patch(GR, "np", _GradFacade())
+        ctx.patch(GR, "np", _GradFacade(ctx))
         ctx.patch(pd.DataFrame, "__setitem__", _object_columns(pd.DataFrame.__setitem__))
     nodes = []
     for _e, ns in layout:
@@ -388,7 +398,7 @@ def _run_gradient_lsq(ctx, case):
     from pandas.core.groupby.generic import SeriesGroupBy
     layout = LSQ_MESHES[case["mesh"]]
     if ctx.sym:
-        ctx.patch(GR, "np", _GradFacade())
+        ctx.patch(GR, "np", _GradFacade(ctx))
         ctx.patch(SeriesGroupBy, "mean", _mean_fallback(SeriesGroupBy.mean))
     nodes = []
     for _e, ns in layout:
